@@ -153,6 +153,7 @@ def check(run):
     copy_protocol(run, prog, cls)           # a copied / unpickled reservoir keeps its probability, size and contents
     from .common import ctor_wiring
     ctor_wiring(c06.FilterRun(run, {"CTOR"}, {"CTOR": "FORMULA"}), prog, cls, "CTOR")   # size / probability as configured, per object
+    c06.depends_on(run, "C18", {"E1"})      # acceptance and slot draws advance the global generator (no state save / restore)
     # ---- AGREE: TreeStorage relies on p >= 1 ---------------------------------------------------
     ts = prog.find_class("TreeStorage")
     run.need(ts is not None, "anchor class TreeStorage vanished")
